@@ -28,10 +28,13 @@ def loopOverlap : Handler := fun j => do
   let jj ← nat (← field j "j")
   let fresh ← nat (← field j "fresh")
   let fields ← C07.fieldsOfJson (← field j "fields")
-  let after := applyLoopOverlap path jj fresh b
+  let carried := (← (j.getObjVal? "carried" >>= fun x => x.getBool?) |>.toOption |>.getD false |> pure)
+  let after := if carried then applyLoopOverlapC path jj fresh b else applyLoopOverlap path jj fresh b
   let why : String :=
-    match after, applyLoopOverlapGen false false path jj fresh b, applyLoopOverlapGen true false path jj fresh b,
-          applyLoopOverlapGen true true path jj fresh b with
+    match after,
+          (if carried then applyLoopOverlapCGen false false path jj fresh b else applyLoopOverlapGen false false path jj fresh b),
+          (if carried then applyLoopOverlapCGen true false path jj fresh b else applyLoopOverlapGen true false path jj fresh b),
+          (if carried then applyLoopOverlapCGen true true path jj fresh b else applyLoopOverlapGen true true path jj fresh b) with
     | some r, some b', some b2, some bg =>
       if (blockToJson b').compress != (blockToJson r).compress then "result"
       else if !noGhostB b2 then "ghost-free"
